@@ -362,6 +362,25 @@ pub fn run(ctx: &Ctx) {
         },
         |(s, v), l| check_sweep(s, v, l),
     );
+    // Display-collected text (collect_str: the length is only known after formatting) at the varint boundaries of its length
+    {
+        let lens: Vec<usize> = vec![0, 1, 2, 126, 127, 128, 129, 130, 200, 255, 256, 300, 16383, 16384, 16385];
+        let lens = &lens;
+        ctx.par_range("display-text-lengths", (lens.len() * 4) as u64, move |i, l| {
+            let i = i as usize;
+            let n = lens[i % lens.len()];
+            let text: String = (0..n).map(|k| (b'a' + (k % 26) as u8) as char).collect();
+            let pieces: Vec<String> = text.as_bytes().chunks(37).map(|c| String::from_utf8(c.to_vec()).unwrap()).collect();
+            let (s, v) = match i / lens.len() {
+                0 => (Shape::DisplayStr, Value::Pieces(pieces)),
+                1 => (Shape::Tuple(vec![Shape::U16, Shape::DisplayStr]), Value::List(vec![Value::U(300), Value::Pieces(pieces)])),
+                2 => (Shape::Tuple(vec![Shape::DisplayStr, Shape::U8]), Value::List(vec![Value::Pieces(pieces), Value::U(0)])),
+                _ => (Shape::Option(Box::new(Shape::DisplayStr)), Value::Some(Box::new(Value::Pieces(pieces)))),
+            };
+            l.class("display-text-length");
+            check_sweep(&s, &v, l)
+        });
+    }
     let n = ctx.tier.pick(60_000, 600_000);
     let scfg = ShapeCfg { depth: 2, ..ShapeCfg::default() };
     ctx.par_proptest(
